@@ -174,7 +174,28 @@ Proof.
   repeat split; try lia. cbn [susp]. lia.
 Qed.
 
-(* generic re-establishment after an instruction that stays in the frame and falls through *)
+(* generic re-establishment after an instruction that stays in the frame and continues at pc' *)
+Lemma inv_goto s fr rest fd A a a' st' l' pc' :
+  nth_error (p_funcs P) (fr_fn fr) = Some fd -> fr_caps fr = f_caps fd ->
+  nth_error As (fr_fn fr) = Some A ->
+  succ_ok A (pc', a') = true ->
+  a_h a <= length (stack s) ->
+  length st' + a_h a = length (stack s) + a_h a' ->
+  fr_base fr + a_lo a' <= length l' -> length l' <= fr_base fr + a_hi a' ->
+  susp rest (length (stack s) - a_h a) (fr_base fr) ->
+  Forall wfv st' -> Forall wfv l' ->
+  Inv {| stack := st'; locals := l'; frames := set_pc fr pc' :: rest; persistent := persistent s |}.
+Proof.
+  intros Hfd Hcaps HA Hs Hh Hlen Hlo Hhi Hsusp Hst Hl.
+  apply succ_ok_spec in Hs. destruct Hs as [b [Hb [Hbh [Hblo Hbhi]]]].
+  unfold Inv. cbn [stack locals frames].
+  split; [exact Hst|]. split; [exact Hl|].
+  split; [exists fd; cbn; auto|].
+  exists b. cbn [set_pc fr_fn fr_pc fr_base]. unfold ann. rewrite HA, Hb.
+  split; [reflexivity|]. split; [lia|]. split; [lia|]. split; [lia|].
+  replace (length st' - a_h b) with (length (stack s) - a_h a) by lia. exact Hsusp.
+Qed.
+
 Lemma inv_fallthrough s fr rest fd A a a' st' l' :
   frames s = fr :: rest -> nth_error (p_funcs P) (fr_fn fr) = Some fd -> fr_caps fr = f_caps fd ->
   nth_error As (fr_fn fr) = Some A ->
@@ -186,16 +207,8 @@ Lemma inv_fallthrough s fr rest fd A a a' st' l' :
   Forall wfv st' -> Forall wfv l' ->
   Inv (bump {| stack := st'; locals := l'; frames := fr :: rest; persistent := persistent s |}).
 Proof.
-  intros Hfr Hfd Hcaps HA Hs Hh Hlen Hlo Hhi Hsusp Hst Hl.
-  apply succ_ok_spec in Hs. destruct Hs as [b [Hb [Hbh [Hblo Hbhi]]]].
-  unfold bump. cbn [frames stack locals]. unfold Inv. cbn [stack locals frames].
-  split; [exact Hst|]. split; [exact Hl|].
-  split; [exists fd; cbn; auto|].
-  exists b. cbn [set_pc fr_fn fr_pc fr_base]. unfold ann. rewrite HA, Hb.
-  split; [reflexivity|]. split; [lia|]. split; [lia|]. split; [lia|].
-  replace (length st' - a_h b) with (length (stack s) - a_h a) by lia. exact Hsusp.
+  intros. unfold bump. cbn [frames stack locals persistent]. eapply inv_goto; eauto.
 Qed.
-
 
 (* ---------------------------------------------------------------- one step, case by case *)
 Ltac cond H :=
@@ -340,7 +353,7 @@ Proof.
   intros Et Hck. start Et. cond Et. bools. inversion Et; subst scs; clear Et.
   destruct (nth_error (locals s) (fr_base fr + idx)) as [v|] eqn:En.
   - cbn [good]. rewrite with_stack_eq. eapply ft; [exact Hck | fin | fin | fin | | exact Hlo].
-    constructor; [exact (Forall_nth wfv _ _ _ Hst En) | exact Hst].
+    constructor; [exact (Forall_nth wfv _ _ _ Hlo En) | exact Hst].
   - apply nth_error_None in En. lia.
 Qed.
 
@@ -428,5 +441,415 @@ Proof.
   constructor; [destruct (is_nil v); [apply wfv_ok | apply wfv_nil] | exact Hst'].
 Qed.
 
+
+Lemma A_len : length A = S len.
+Proof. exact (ff_len _ _ Hfacts). Qed.
+
+Lemma target_in (t : nat) a' : succ_ok A (t, a') = true -> t <= len.
+Proof.
+  intros H. apply succ_ok_spec in H. destruct H as [b [Hb _]].
+  assert (t < length A) by (apply nth_error_Some; congruence). rewrite A_len in H. lia.
+Qed.
+
+Lemma goto a' st' l' pc' :
+  succ_ok A (pc', a') = true ->
+  length st' + a_h a = length (stack s) + a_h a' ->
+  fr_base fr + a_lo a' <= length l' -> length l' <= fr_base fr + a_hi a' ->
+  Forall wfv st' -> Forall wfv l' ->
+  Inv {| stack := st'; locals := l'; frames := set_pc fr pc' :: rest; persistent := persistent s |}.
+Proof. intros. eapply inv_goto; eauto. Qed.
+
+Lemma case_jump off scs : transfer P k len pc (IJump off) a = Some scs -> forallb (succ_ok A) scs = true ->
+  good (let t := jump_target (fr_pc fr) off in
+        if ((t <? 0) || (Z.of_nat (length (f_code fd)) <? t))%Z then Fault FJumpOut
+        else Next (with_frames s (set_pc fr (Z.to_nat t) :: rest))).
+Proof.
+  intros Et Hck. start Et. cond Et. bools. inversion Et; subst scs; clear Et.
+  cbn [forallb] in Hck. apply andb_true_iff in Hck. destruct Hck as [Hs _].
+  pose proof (target_in _ _ Hs) as Hin. cbv zeta. fold pc. fold len.
+  destruct ((jump_target pc off <? 0)%Z || (Z.of_nat len <? jump_target pc off)%Z) eqn:E.
+  - exfalso. apply orb_true_iff in E. destruct E as [E|E]; [apply Z.ltb_lt in E | apply Z.ltb_lt in E]; lia.
+  - cbn [good]. unfold with_frames. eapply goto; [exact Hs | fin | fin | fin | exact Hst | exact Hlo].
+Qed.
+
+Lemma case_jumpif off scs : transfer P k len pc (IJumpIf off) a = Some scs -> forallb (succ_ok A) scs = true ->
+  good (match stack s with
+        | c :: st =>
+            if is_nil c then Next (bump (with_stack s st))
+            else
+              let t := jump_target (fr_pc fr) off in
+              if ((t <? 0) || (Z.of_nat (length (f_code fd)) <? t))%Z then Fault FJumpOut
+              else Next {| stack := st; locals := locals s; frames := set_pc fr (Z.to_nat t) :: rest; persistent := persistent s |}
+        | [] => Fault FStackUnderflow
+        end).
+Proof.
+  intros Et Hck. start Et. cond Et. bools. inversion Et; subst scs; clear Et.
+  case_eq (stack s); [intros Es; nostack Es | intros v st Es].
+  destruct (stack_cons _ _ Es) as [Hv [Hst' Hlen]].
+  cbn [forallb] in Hck. apply andb_true_iff in Hck. destruct Hck as [Hs1 Hck]. apply andb_true_iff in Hck. destruct Hck as [Hs2 _].
+  destruct (is_nil v).
+  - cbn [good]. rewrite with_stack_eq. eapply ft; [cbn [forallb]; rewrite Hs1; reflexivity | fin | fin | fin | exact Hst' | exact Hlo].
+  - pose proof (target_in _ _ Hs2) as Hin. cbv zeta. fold pc. fold len.
+    destruct ((jump_target pc off <? 0)%Z || (Z.of_nat len <? jump_target pc off)%Z) eqn:E.
+    + exfalso. apply orb_true_iff in E. destruct E as [E|E]; [apply Z.ltb_lt in E | apply Z.ltb_lt in E]; lia.
+    + cbn [good]. eapply goto; [exact Hs2 | fin | fin | fin | exact Hst' | exact Hlo].
+Qed.
+
+Lemma case_reset idx scs : transfer P k len pc (IReset idx) a = Some scs -> forallb (succ_ok A) scs = true ->
+  good (let target := fr_base fr + idx in
+        if length (locals s) <? target then Fault FStackUnderflow
+        else Next (bump (with_locals s (firstn target (locals s))))).
+Proof.
+  intros Et Hck. start Et. cond Et. bools. inversion Et; subst scs; clear Et. cbv zeta.
+  destruct (length (locals s) <? fr_base fr + idx) eqn:E; bools; [lia|].
+  cbn [good]. rewrite with_locals_eq. eapply ft; [exact Hck | fin | | | exact Hst | apply Forall_firstn; exact Hlo].
+  - rewrite firstn_length. cbn [a_lo mk]. lia.
+  - rewrite firstn_length. cbn [a_hi mk]. lia.
+Qed.
+
+Lemma case_builtin b scs : transfer P k len pc (IBuiltin b) a = Some scs -> forallb (succ_ok A) scs = true ->
+  good (if p_nbuiltins P <=? b then Fault FBuiltinUndefined
+        else Next (bump (with_stack s (VBuiltin b :: stack s)))).
+Proof.
+  intros Et Hck. start Et. cond Et. bools. inversion Et; subst scs; clear Et.
+  destruct (p_nbuiltins P <=? b) eqn:E; bools; [lia|].
+  cbn [good]. rewrite with_stack_eq. eapply ft; [exact Hck | fin | fin | fin | | exact Hlo].
+  constructor; [exact I | exact Hst].
+Qed.
+
+Lemma case_function f scs : transfer P k len pc (IFunction f) a = Some scs -> forallb (succ_ok A) scs = true ->
+  good (match nth_error (p_funcs P) f with
+        | None => Fault FFunctionUndefined
+        | Some fd0 =>
+            match popn (f_caps fd0) (stack s) [] with
+            | Some (caps, st) => Next (bump (with_stack s (VFun f caps :: st)))
+            | None => Fault FStackUnderflow
+            end
+        end).
+Proof.
+  intros Et Hck. start Et. cond Et. cond Et. bools. inversion Et; subst scs; clear Et.
+  destruct (popn_some (f_caps f0) (stack s) []) as [vs [st' Hp]]; [lia|]. rewrite Hp.
+  destruct (popn_wf _ _ _ Hp) as [Hvs [Hst' [Hlen Hvl]]].
+  cbn [good]. rewrite with_stack_eq. eapply ft; [exact Hck | fin | fin | fin | | exact Hlo].
+  constructor; [|exact Hst']. apply wfv_fun. split; [exists f0; auto | exact Hvs].
+Qed.
+
+Lemma case_equal n scs : transfer P k len pc (IEqual n) a = Some scs -> forallb (succ_ok A) scs = true ->
+  good (if length (stack s) <? n then Fault FStackUnderflow
+        else match popn n (stack s) [] with
+             | Some (vs, st) =>
+                 match vs with
+                 | [] => Fault FPanicEqual0
+                 | _ :: _ => Next (bump (with_stack s ((if x_bool x then vok else vnil) :: st)))
+                 end
+             | None => Fault FStackUnderflow
+             end).
+Proof.
+  intros Et Hck. start Et. cond Et. bools. inversion Et; subst scs; clear Et.
+  destruct (length (stack s) <? n) eqn:E; bools; [lia|].
+  destruct (popn_some n (stack s) []) as [vs [st' Hp]]; [lia|]. rewrite Hp.
+  destruct (popn_wf _ _ _ Hp) as [Hvs [Hst' [Hlen Hvl]]].
+  destruct vs as [|v0 vs]; [cbn in Hvl; lia|].
+  cbn [good]. rewrite with_stack_eq. eapply ft; [exact Hck | fin | fin | fin | | exact Hlo].
+  constructor; [destruct (x_bool x); [apply wfv_ok | apply wfv_nil] | exact Hst'].
+Qed.
+
+Lemma case_self scs : transfer P k len pc ISelf a = Some scs -> forallb (succ_ok A) scs = true ->
+  good (let v := match x_value x with Some v => v | None => VProc 0 (fr_fn (last (frames s) fr)) end in
+        Next (bump (with_stack s (v :: stack s)))).
+Proof.
+  intros Et Hck. start Et. inversion Et; subst scs; clear Et. cbv zeta.
+  cbn [good]. rewrite with_stack_eq. eapply ft; [exact Hck | fin | fin | fin | | exact Hlo].
+  constructor; [|exact Hst]. destruct (x_value x) as [v|] eqn:Ev; [apply xval_wf; assumption | exact I].
+Qed.
+
+
+Lemma stack_cons2 v w st : stack s = v :: w :: st ->
+  wfv v /\ wfv w /\ Forall wfv st /\ length (stack s) = S (S (length st)).
+Proof.
+  intros E. pose proof Hst as H0. rewrite E in H0. inversion H0 as [|? ? Hv H1]; subst. inversion H1; subst.
+  rewrite E. cbn. auto.
+Qed.
+
+Lemma case_spawn scs : transfer P k len pc ISpawn a = Some scs -> forallb (succ_ok A) scs = true ->
+  good (match stack s with
+        | fv :: _ :: st =>
+            match fv with
+            | VFun _ _ => match x_value x with
+                          | Some pid => Next (bump (with_stack s (pid :: st)))
+                          | None => Fault FBuiltinError
+                          end
+            | _ => Fault FTypeMismatch
+            end
+        | _ => Fault FStackUnderflow
+        end).
+Proof.
+  intros Et Hck. start Et. cond Et. bools. inversion Et; subst scs; clear Et.
+  case_eq (stack s); [intros Es; nostack Es | intros v st0 Es].
+  destruct st0 as [|w st]; [exfalso; pose proof Hh as Hh'; rewrite Es in Hh'; cbn in Hh'; lia|].
+  destruct (stack_cons2 _ _ _ Es) as [Hv [Hw [Hst' Hlen]]].
+  destruct v; try reflexivity.
+  destruct (x_value x) as [pid|] eqn:Ev; [|reflexivity].
+  cbn [good]. rewrite with_stack_eq. eapply ft; [exact Hck | fin | fin | fin | | exact Hlo].
+  constructor; [apply xval_wf; assumption | exact Hst'].
+Qed.
+
+Lemma case_send scs : transfer P k len pc ISend a = Some scs -> forallb (succ_ok A) scs = true ->
+  good (match stack s with
+        | target :: _ :: st =>
+            match target with
+            | VProc _ _ => Next (bump (with_stack s (target :: st)))
+            | _ => Fault FTypeMismatch
+            end
+        | _ => Fault FStackUnderflow
+        end).
+Proof.
+  intros Et Hck. start Et. cond Et. bools. inversion Et; subst scs; clear Et.
+  case_eq (stack s); [intros Es; nostack Es | intros v st0 Es].
+  destruct st0 as [|w st]; [exfalso; pose proof Hh as Hh'; rewrite Es in Hh'; cbn in Hh'; lia|].
+  destruct (stack_cons2 _ _ _ Es) as [Hv [Hw [Hst' Hlen]]].
+  destruct v; try reflexivity.
+  cbn [good]. rewrite with_stack_eq. eapply ft; [exact Hck | fin | fin | fin | | exact Hlo].
+  constructor; [exact I | exact Hst'].
+Qed.
+
+Lemma case_select scs : transfer P k len pc ISelect a = Some scs -> forallb (succ_ok A) scs = true ->
+  good (match stack s with
+        | _ :: st => match x_value x with
+                     | Some v => Next (bump (with_stack s (v :: st)))
+                     | None => Fault FBuiltinError
+                     end
+        | [] => Fault FStackUnderflow
+        end).
+Proof.
+  intros Et Hck. start Et. cond Et. bools. inversion Et; subst scs; clear Et.
+  case_eq (stack s); [intros Es; nostack Es | intros v0 st Es].
+  destruct (stack_cons _ _ Es) as [Hv [Hst' Hlen]].
+  destruct (x_value x) as [v|] eqn:Ev; [|reflexivity].
+  cbn [good]. rewrite with_stack_eq. eapply ft; [exact Hck | fin | fin | fin | | exact Hlo].
+  constructor; [apply xval_wf; assumption | exact Hst'].
+Qed.
+
+Lemma case_process p f scs : transfer P k len pc (IProcess p f) a = Some scs -> forallb (succ_ok A) scs = true ->
+  good (Next (bump (with_stack s (VProc p f :: stack s)))).
+Proof.
+  intros Et Hck. start Et. cond Et. bools. inversion Et; subst scs; clear Et.
+  cbn [good]. rewrite with_stack_eq. eapply ft; [exact Hck | fin | fin | fin | | exact Hlo].
+  constructor; [exact I | exact Hst].
+Qed.
+
+(* the current frame, seen as suspended at its Call *)
+Lemma susp_self sb lb :
+  nth_error (f_code fd) pc = Some ICall -> 2 <= a_h a ->
+  sb + a_h a = length (stack s) + (a_h a - 2) + 0 -> (* sb = |stack| - 2 *)
+  fr_base fr + a_lo a <= lb -> lb <= fr_base fr + a_hi a ->
+  susp (fr :: rest) sb lb.
+Proof.
+  intros Hi H2 Hsb Hlb1 Hlb2. cbn [susp]. split; [exists fd; auto|].
+  exists a. unfold ann. rewrite HA. unfold pc in *. rewrite HApc.
+  split; [reflexivity|]. unfold code. rewrite Hfd. split; [exact Hi|].
+  split; [lia|]. split; [lia|]. split; [lia|]. split; [lia|].
+  replace (sb - (a_h a - 2)) with (length (stack s) - a_h a) by lia. exact Hsusp.
+Qed.
+
+Lemma case_call scs : nth_error (f_code fd) pc = Some ICall ->
+  transfer P k len pc ICall a = Some scs -> forallb (succ_ok A) scs = true ->
+  good (match stack s with
+        | VFun f caps :: st =>
+            match nth_error (p_funcs P) f with
+            | None => Fault FFunctionUndefined
+            | Some _ =>
+                match st with
+                | param :: st' =>
+                    let base := length (locals s) in
+                    Next {| stack := param :: st'; locals := locals s ++ caps;
+                            frames := {| fr_fn := f; fr_base := base; fr_caps := length caps; fr_pc := 0 |} :: frames s;
+                            persistent := persistent s |}
+                | [] => Fault FStackUnderflow
+                end
+            end
+        | VBuiltin _ :: st =>
+            match st with
+            | _ :: st' =>
+                match x_value x with
+                | Some v => Next (bump (with_stack s (v :: st')))
+                | None => Fault FBuiltinError
+                end
+            | [] => Fault FStackUnderflow
+            end
+        | _ :: _ => Fault FTypeMismatch
+        | [] => Fault FStackUnderflow
+        end).
+Proof.
+  intros Hi Et Hck. start Et. cond Et. bools. inversion Et; subst scs; clear Et.
+  case_eq (stack s); [intros Es; nostack Es | intros v st0 Es].
+  destruct st0 as [|w st]; [exfalso; pose proof Hh as Hh'; rewrite Es in Hh'; cbn in Hh'; lia|].
+  destruct (stack_cons2 _ _ _ Es) as [Hv [Hw [Hst' Hlen]]].
+  destruct v; try reflexivity.
+  - (* function call: push a frame *)
+    apply wfv_fun in Hv. destruct Hv as [[fd' [Hfd' Hcl]] Hcapswf]. rewrite Hfd'.
+    cbv zeta. cbn [good]. rewrite Efr.
+    destruct (func_checked _ _ Hfd') as [A' [HA' Hchk']]. apply check_function_facts in Hchk'.
+    destruct (ff_entry _ _ Hchk') as [b [Hb [Hbh [Hblo Hbhi]]]].
+    unfold Inv. cbn [stack locals frames fr_fn fr_pc fr_base fr_caps].
+    split; [constructor; assumption|]. split; [apply Forall_app; split; assumption|].
+    split; [exists fd'; cbn; auto|].
+    exists b. unfold ann. rewrite HA', Hb. split; [reflexivity|].
+    cbn [length]. rewrite app_length. split; [lia|]. split; [lia|]. split; [lia|].
+    apply susp_self; try assumption; try lia.
+  - (* builtin call: result (or action completion) pushed in place *)
+    destruct (x_value x) as [r|] eqn:Ev; [|reflexivity].
+    cbn [good]. rewrite with_stack_eq. eapply ft; [exact Hck | fin | fin | fin | | exact Hlo].
+    constructor; [apply xval_wf; assumption | exact Hst'].
+Qed.
+
+Lemma case_tailcall_rec scs : transfer P k len pc (ITailCall true) a = Some scs -> forallb (succ_ok A) scs = true ->
+  good (match stack s with
+        | arg :: st =>
+            Next {| stack := arg :: st; locals := firstn (fr_base fr + fr_caps fr) (locals s);
+                    frames := set_pc fr 0 :: rest; persistent := persistent s |}
+        | [] => Fault FStackUnderflow
+        end).
+Proof.
+  intros Et Hck. start Et. cond Et. bools. inversion Et; subst scs; clear Et.
+  case_eq (stack s); [intros Es; nostack Es | intros v st Es].
+  destruct (stack_cons _ _ Es) as [Hv [Hst' Hlen]].
+  cbn [good].
+  destruct (ff_entry _ _ Hfacts) as [b [Hb [Hbh [Hblo Hbhi]]]].
+  unfold Inv. cbn [stack locals frames set_pc fr_fn fr_pc fr_base fr_caps].
+  split; [constructor; assumption|]. split; [apply Forall_firstn; exact Hlo|].
+  split; [exists fd; cbn; auto|].
+  exists b. unfold ann. rewrite HA, Hb. split; [reflexivity|].
+  rewrite firstn_length. cbn [length]. rewrite Hcaps. fold k.
+  split; [lia|]. split; [lia|]. split; [lia|].
+  replace (S (length st) - a_h b) with (length (stack s) - a_h a) by lia. exact Hsusp.
+Qed.
+
+Lemma case_tailcall_fn scs : transfer P k len pc (ITailCall false) a = Some scs -> forallb (succ_ok A) scs = true ->
+  good (match stack s with
+        | fv :: arg :: st =>
+            match fv with
+            | VFun f caps =>
+                match nth_error (p_funcs P) f with
+                | None => Fault FFunctionUndefined
+                | Some _ =>
+                    Next {| stack := arg :: st; locals := firstn (fr_base fr) (locals s) ++ caps;
+                            frames := {| fr_fn := f; fr_base := fr_base fr; fr_caps := length caps; fr_pc := 0 |} :: rest;
+                            persistent := persistent s |}
+                end
+            | _ => Fault FCallInvalid
+            end
+        | _ => Fault FStackUnderflow
+        end).
+Proof.
+  intros Et Hck. start Et. cond Et. bools. inversion Et; subst scs; clear Et.
+  case_eq (stack s); [intros Es; nostack Es | intros v st0 Es].
+  destruct st0 as [|w st]; [exfalso; pose proof Hh as Hh'; rewrite Es in Hh'; cbn in Hh'; lia|].
+  destruct (stack_cons2 _ _ _ Es) as [Hv [Hw [Hst' Hlen]]].
+  destruct v; try reflexivity.
+  apply wfv_fun in Hv. destruct Hv as [[fd' [Hfd' Hcl]] Hcapswf]. rewrite Hfd'.
+  cbn [good].
+  destruct (func_checked _ _ Hfd') as [A' [HA' Hchk']]. apply check_function_facts in Hchk'.
+  destruct (ff_entry _ _ Hchk') as [b [Hb [Hbh [Hblo Hbhi]]]].
+  unfold Inv. cbn [stack locals frames fr_fn fr_pc fr_base fr_caps].
+  split; [constructor; assumption|].
+  split; [apply Forall_app; split; [apply Forall_firstn; exact Hlo | assumption]|].
+  split; [exists fd'; cbn; auto|].
+  exists b. unfold ann. rewrite HA', Hb. split; [reflexivity|].
+  rewrite app_length, firstn_length. cbn [length].
+  split; [lia|]. split; [lia|]. split; [lia|].
+  replace (S (length st) - a_h b) with (length (stack s) - a_h a) by lia. exact Hsusp.
+Qed.
+
+(* the frame's code is exhausted: pop it *)
+Lemma case_frame_pop : nth_error (f_code fd) pc = None -> a_h a = 1 ->
+  good (let is_last := match rest with [] => true | _ => false end in
+        let keep := persistent s && is_last in
+        let l' := if keep then locals s else firstn (fr_base fr) (locals s) in
+        Next (bump {| stack := stack s; locals := l'; frames := rest; persistent := persistent s |})).
+Proof.
+  intros Hend H1. cbv zeta. cbn [good].
+  destruct rest as [|c rest'] eqn:Er.
+  - (* outermost frame: the process is about to finish with exactly one value *)
+    cbn [susp] in Hsusp. unfold bump. cbn [frames]. unfold Inv. cbn [stack locals frames].
+    split; [exact Hst|]. split; [destruct (persistent s && true); [exact Hlo | apply Forall_firstn; exact Hlo]|]. lia.
+  - cbn [susp] in Hsusp. destruct Hsusp as [[fdc [Hfdc Hcc]] [ac [Hac [Hic [H2 [Hsb [Hlb1 [Hlb2 Hs']]]]]]]].
+    rewrite andb_false_r.
+    destruct (func_checked _ _ Hfdc) as [Ac [HAc Hchkc]]. apply check_function_facts in Hchkc.
+    (* the caller's annotation at its Call site and the checker's verdict there *)
+    assert (HAcpc : nth_error Ac (fr_pc c) = Some (Some ac)).
+    { unfold ann in Hac. rewrite HAc in Hac. destruct (nth_error Ac (fr_pc c)) as [[?|]|]; congruence. }
+    assert (Hpcc : fr_pc c <= length (f_code fdc)).
+    { assert (fr_pc c < length Ac) by (apply nth_error_Some; congruence). rewrite (ff_len _ _ Hchkc) in H. lia. }
+    pose proof (ff_pc _ _ Hchkc _ Hpcc) as Hck. unfold check_pc in Hck. rewrite HAcpc in Hck.
+    unfold code in Hic. rewrite Hfdc in Hic. rewrite Hic in Hck.
+    unfold transfer in Hck. destruct (2 <=? a_h ac) eqn:E2; [|discriminate]. cbn [forallb] in Hck.
+    apply andb_true_iff in Hck. destruct Hck as [Hs _].
+    unfold bump. cbn [frames stack locals persistent].
+    pose proof Hh as Hh0.
+    assert (Hbase : fr_base fr <= length (locals s)) by lia.
+    replace {| stack := stack s; locals := firstn (fr_base fr) (locals s);
+               frames := set_pc c (S (fr_pc c)) :: rest'; persistent := persistent s |}
+      with {| stack := stack s; locals := firstn (fr_base fr) (locals s);
+              frames := set_pc c (S (fr_pc c)) :: rest';
+              persistent := persistent {| stack := stack s; locals := locals s; frames := c :: rest'; persistent := persistent s |} |}
+      by reflexivity.
+    apply succ_ok_spec in Hs. destruct Hs as [b [Hb [Hbh [Hblo Hbhi]]]]. cbn [a_h a_lo a_hi mk] in *.
+    unfold Inv. cbn [stack locals frames].
+    split; [exact Hst|]. split; [apply Forall_firstn; exact Hlo|].
+    split; [exists fdc; cbn; auto|].
+    exists b. cbn [set_pc fr_fn fr_pc fr_base]. unfold ann. rewrite HAc, Hb.
+    split; [reflexivity|]. rewrite firstn_length.
+    split; [lia|]. split; [lia|]. split; [lia|].
+    replace (length (stack s) - a_h b) with (length (stack s) - a_h a - (a_h ac - 2)) by lia. exact Hs'.
+Qed.
+
 End STEP.
+
+(* ---------------------------------------------------------------- the theorem *)
+Theorem step_sound s x : Inv s -> ext_ok x -> good (step P s x).
+Proof.
+  intros [Hst [Hlo Hfr]] Hx. unfold step.
+  destruct (frames s) as [|fr rest] eqn:Efr.
+  - case_eq (stack s); [intros Es; rewrite Es in Hfr; discriminate | intros v st Es].
+    cbn [good]. rewrite Es in Hst, Hfr. inversion Hst; subst. split; [assumption|].
+    unfold with_stack. cbn [stack]. destruct st; [reflexivity | discriminate].
+  - destruct Hfr as [[fd [Hfd Hcaps]] [a [Ha [Hh [Hl1 [Hl2 Hsusp]]]]]].
+    unfold code_of. rewrite Hfd. cbn [option_map].
+    destruct (func_checked _ _ Hfd) as [A [HA Hchk]]. apply check_function_facts in Hchk.
+    assert (HApc : nth_error A (fr_pc fr) = Some (Some a)).
+    { unfold ann in Ha. rewrite HA in Ha. destruct (nth_error A (fr_pc fr)) as [[?|]|]; congruence. }
+    assert (Hpc : fr_pc fr <= length (f_code fd)).
+    { assert (fr_pc fr < length A) by (apply nth_error_Some; congruence). rewrite (ff_len _ _ Hchk) in H. lia. }
+    pose proof (ff_pc _ _ Hchk _ Hpc) as Hck. unfold check_pc in Hck. rewrite HApc in Hck.
+    destruct (nth_error (f_code fd) (fr_pc fr)) as [i|] eqn:Ei.
+    + destruct (transfer P (f_caps fd) (length (f_code fd)) (fr_pc fr) i a) as [scs|] eqn:Et; [|discriminate].
+      destruct i.
+      * eapply case_constant; eauto.
+      * eapply case_pop; eauto.
+      * eapply case_dup; eauto.
+      * eapply case_pick; eauto.
+      * eapply case_rotate; eauto.
+      * eapply case_reset; eauto.
+      * eapply case_load; eauto.
+      * rewrite <- Efr. eapply case_store; eauto.
+      * eapply case_tuple; eauto.
+      * eapply case_get; eauto.
+      * eapply case_istype; eauto.
+      * eapply case_jump; eauto.
+      * eapply case_jumpif; eauto.
+      * rewrite <- Efr. eapply case_call; eauto.
+      * destruct recurse; [eapply case_tailcall_rec; eauto | eapply case_tailcall_fn; eauto].
+      * eapply case_function; eauto.
+      * eapply case_builtin; eauto.
+      * eapply case_equal; eauto.
+      * eapply case_not; eauto.
+      * eapply case_spawn; eauto.
+      * eapply case_send; eauto.
+      * rewrite <- Efr. eapply case_self; eauto.
+      * eapply case_select; eauto.
+      * eapply case_process; eauto.
+    + apply Nat.eqb_eq in Hck. eapply case_frame_pop; eauto.
+Qed.
+
 End SOUND.
